@@ -129,7 +129,10 @@ void h_uci_roundtrip(void) {
   SMove m = nondet_move();
   uint32_t mover = m.castle ? (side ? 60 : 4) : m.from, pc = P.POS_board[mover];
   __CPROVER_assume(pc != 0 && (pc > 6) == (side == 1));
-  if (m.castle) __CPROVER_assume(pc == (side ? 12 : 6) && m.from == 0 && m.to == 0 && m.promo == 0);
+  /* castling rights: arbitrary, except that a castling move is legal only while the mover still has that right (an implementation
+     may consult the rights when it reads the king's two-square move) */
+  uint32_t cr = nondet_u32() & 15; P.POS_castling_rights = cr; ce_cr = cr;
+  if (m.castle) __CPROVER_assume(pc == (side ? 12 : 6) && m.from == 0 && m.to == 0 && m.promo == 0 && (cr & ((m.castle == 1 ? 1u : 2u) << (side ? 2 : 0))) != 0);
   else {
     __CPROVER_assume(m.from != m.to && (m.promo == 0 || (m.promo >= 2 && m.promo <= 5)));
     int df = (int)(m.from & 7) - (int)(m.to & 7), dr = (int)(m.from >> 3) - (int)(m.to >> 3);
